@@ -54,6 +54,12 @@ theorem withNewCas_clockInv (s : State) (c : String) (fn : TxnFn) (h : ClockInv 
       · exact ClockInv.frame rfl rfl (Nat.le_refl _) rfl key
       · exact key
 
+theorem reopen_clockInv (s : State) (p : Nat) (h : ClockInv s) : ClockInv (reopen s p) := by
+  obtain ⟨h1, h2, _, h4⟩ := h
+  refine ⟨h1, h2, ?_, h4⟩
+  simp only [reopen, hlcUpdate]
+  split <;> omega
+
 theorem clockInv_step : StepInvariant (fun _ => True) ClockInv where
   txn :=
     { add := fun _ _ _ _ s c h => withNewCas_clockInv s c _ h
@@ -88,6 +94,7 @@ theorem clockInv_step : StepInvariant (fun _ => True) ClockInv where
         · exact ClockInv.frame rfl rfl (Nat.le_refl _) rfl key
         · exact key
   draw := fun s h => ClockInv.frame (s := s) rfl rfl (Nat.le_of_lt (hlcNow_gt _ _)) rfl h
+  restart := fun s p h => reopen_clockInv s p h
   purge := fun s h => by
     obtain ⟨h1, h2, h3, h4⟩ := h
     refine ⟨h1, h2, h3, ?_⟩
@@ -107,15 +114,5 @@ theorem initState_clockInv : ClockInv initState := by
   intro p hp
   simp [initState] at hp
   rcases hp with rfl | rfl | rfl <;> simp [initState]
-
-/-- Reopening (in a new process or the same one): the clock is re-seeded with the persisted high-water mark. -/
-def reopen (s : State) (processHlc : Nat) : State :=
-  { s with hlc := hlcUpdate processHlc s.lastCas, feeds := [], expNext := minExp s }
-
-theorem reopen_clockInv (s : State) (p : Nat) (h : ClockInv s) : ClockInv (reopen s p) := by
-  obtain ⟨h1, h2, _, h4⟩ := h
-  refine ⟨h1, h2, ?_, h4⟩
-  simp only [reopen, hlcUpdate]
-  split <;> omega
 
 end Rosmar
